@@ -138,19 +138,20 @@ def run(repo, chk):
     chk.ob("R16.3", "runtime:marker-never-a-call-argument", not bad and total >= 6, "ptera/interpret.py, probe.py, overlay.py",
            f"in the {total} uses of ABSENT in the runtime modules the marker is only tested, returned or assigned, never passed to a capture / push / callback" + (f" -- {bad[:3]}" if bad else ""))
     wi = repo.func("interpret.WorkingFrame.intercept")
-    tmp_uses = []
-    for n in walk_local(wi.node):
-        if isinstance(n, ast.Name) and n.id == "tmp" and isinstance(n.ctx, ast.Load):
+    ia2 = repo.func("interpret.Interactor.interact")
+    fr_uses = []
+    for n in walk_local(ia2.node):
+        if isinstance(n, ast.Name) and n.id == "fr_value" and isinstance(n.ctx, ast.Load):
             par = n._parent
             if isinstance(par, ast.Compare) and all(isinstance(o, (ast.Is, ast.IsNot)) for o in par.ops) and any(is_name(c, "ABSENT") for c in [par.left, *par.comparators]):
-                tmp_uses.append("test")
-            elif isinstance(par, ast.Assign) and is_name(par.targets[0], "rval"):
-                guarded = any(isinstance(a, ast.If) and "tmp is not ABSENT" in norm(a.test) for a in _anc(par))
-                tmp_uses.append("kept" if guarded else "kept-unguarded")
+                fr_uses.append("test")
+            elif isinstance(par, ast.Assign):
+                guarded = any(isinstance(a, ast.If) and "fr_value is not ABSENT" in norm(a.test) for a in _anc(par))
+                fr_uses.append("kept" if guarded else "kept-unguarded")
             else:
-                tmp_uses.append("other:" + norm(par)[:40])
-    chk.ob("R16.3", "interpret.WorkingFrame.intercept:handler-result-only-tested", "test" in tmp_uses and set(tmp_uses) <= {"test", "kept"}, wi.where,
-           "a handler's result is only tested for identity with ABSENT before it may become the override")
+                fr_uses.append("other:" + norm(par)[:40])
+    chk.ob("R16.3", "interpret.Interactor.interact:intercept-result-only-tested", "test" in fr_uses and set(fr_uses) <= {"test", "kept"}, ia2.where,
+           "the result of the intercept chain (possibly ABSENT) is only tested for identity with ABSENT before it may become the value")
     em = repo.func("probe.Probe._emit")
     chk.ob("R16.3", "probe.Probe._emit:returns-ABSENT-after-push", [norm(r.value) for r in returns_of(em.node)] == ["ABSENT"], em.where, "a plain probe never overrides: its emitter returns ABSENT (after pushing the event)")
     oe = repo.func("probe.OverridableProbe._emit")
